@@ -81,9 +81,38 @@ def handleSeq (args : List String) : Verdict :=
   | some (v, []) => v
   | _ => { agree := false, msg := "bad-line", tag := "bad" }
 
+/-- structured table rows: the table read from a fresh handle is the table written last under that name, row for row, bit for bit -/
+def handleTbl (args : List String) : Verdict :=
+  let rowP : P (Int × String × Rat × Rat × Int) := do
+    let id ← int; let l ← str; let x ← rat; let w ← rat; let k ← int; pure (id, l, x, w, k)
+  let p : P Verdict := do
+    let _path ← str
+    let n1 ← nat; let a ← many rowP n1
+    let again ← nat
+    let n2 ← nat; let b ← many rowP n2
+    let bar ← tok
+    if bar != "|" then failure else
+    let st1 ← tok; let st2 ← tok; let st3 ← tok
+    let nb ← nat; let back ← many rowP nb
+    -- the store model: a name holds the value written last
+    let expected := if again == 1 then b else a
+    let tag := s!"table-{if again == 1 then (if n1 == n2 then "overwrite-same-rows" else if n2 < n1 then "overwrite-fewer-rows" else "overwrite-more-rows") else "fresh"}"
+    if st1 != "ok" then pure { agree := false, propOk := false, msg := "CPT-TABLE-WRITE-REFUSED a fresh table could not be written", tag := tag } else
+    let refused : String := s!"CPT-TABLE-OVERWRITE-REFUSED writing a table of {n2} rows under a name that holds {n1} rows failed instead of replacing it"
+    if again == 1 && st2 != "ok" then pure { agree := false, propOk := false, tag := tag, msg := refused } else
+    if st3 != "ok" then pure { agree := false, propOk := false, msg := "CPT-TABLE-READ-FAILED", tag := tag } else
+    let ok := back == expected
+    let firstBad : Option Nat := ((back.zip expected).zipIdx.find? fun ((x, y), _) => x != y).map (·.2)
+    let differs : String := s!"CPT-TABLE-DIFFERS {nb} rows read, {expected.length} rows written last ({n1} rows before); first differing row {firstBad}"
+    pure { agree := ok, propOk := ok, tag := tag, msg := differs }
+  match p.run args with
+  | some (v, []) => v
+  | _ => { agree := false, msg := "bad-line", tag := "bad" }
+
 def handle (args : List String) : Verdict :=
   match args with
   | "seq" :: rest => handleSeq rest
+  | "tbl" :: rest => handleTbl rest
   | _ => { agree := false, msg := "bad-line", tag := "bad" }
 
 end Driver.C17
